@@ -118,3 +118,99 @@ def field_place_src(*fields, owner=None):
                 return True
         return False
     return f
+
+
+def roots(body, op, fp=(), depth=0, seen=None):
+    """backward slice of one operand to its leaves, following EVERY definition of every local on the way (may-origin, flow-insensitive):
+    set of ('arg', local, (field names...)) | ('const', repr) | ('call', callee) for argument-less calls | ('unknown', local).
+    `fp` is the field path still to be applied to the value (outermost first). Calls pass all their arguments through."""
+    if seen is None:
+        seen = set()
+    out = set()
+    c = op_const(op)
+    if c is not None:
+        if 's' in c:
+            out.add(('const', c['s']))
+        elif 'v' in c:
+            out.add(('const', str(c['v'])))
+        elif 'promoted' in c and body.promoted and c['promoted'] < len(body.promoted):
+            pb = body.promoted[c['promoted']]
+            out |= _roots_local(pb, 0, fp, depth + 1, set())
+        return out
+    p = op_place(op)
+    if p is None:
+        return out
+    return _roots_place(body, p, fp, depth, seen)
+
+
+def _roots_place(body, p, fp, depth, seen):
+    if isinstance(p, int):
+        return _roots_local(body, p, fp, depth, seen)
+    fs = tuple(pl_fields(p))
+    out = _roots_local(body, pl_local(p), fs + tuple(fp), depth, seen)
+    for e in pl_proj(p):
+        if isinstance(e, dict) and 'ix' in e:
+            out |= _roots_local(body, e['ix'], (), depth + 1, seen)
+    return out
+
+
+def _roots_local(body, l, fp, depth, seen):
+    key = (id(body), l, tuple(fp))
+    if key in seen or depth > 40:
+        return set()
+    seen.add(key)
+    out = set()
+    ds = body.defs.get(l, [])
+    if not ds and 1 <= l <= body.argc:
+        out.add(('arg', l, tuple(fp)))
+    elif not ds:
+        out.add(('unknown', l))
+    for kind, bb, j, node in ds:
+        if kind == 'call':
+            args = node.get('args') or []
+            if not args:
+                f = node.get('func') or {}
+                out.add(('call', str((f.get('c') or {}).get('fn', {}).get('full') if isinstance(f, dict) else f)))
+            from . import cfg as _cfg
+            nm = _cfg.callee_name(node) or ''
+            thru = nm in _cfg.PASS_THROUGH or _cfg.PASS_RX.search(nm) or nm.endswith(('::into_inner', '::deref', '::deref_mut', '::as_ref', '::clone', '::borrow'))
+            for k2, a in enumerate(args):
+                # a pass-through call (deref, clone, as_ref, into_inner ..) hands on the same value: the field path still applies to its receiver
+                out |= roots(body, a, fp if (thru and k2 == 0) else (), depth + 1, seen)
+        elif kind == 'yield':
+            out.add(('unknown', l))
+        else:
+            rv = node['rv']
+            k = rv['k']
+            if k in ('use', 'cast'):
+                out |= roots(body, rv['op'], fp, depth + 1, seen)
+            elif k == 'ref':
+                out |= _roots_place(body, rv['pl'], fp, depth + 1, seen)
+            elif k == 'agg':
+                names = rv.get('fields') or []
+                ops = rv.get('ops') or []
+                if fp and rv.get('ak') == 'adt' and fp[0] in names:
+                    out |= roots(body, ops[names.index(fp[0])], fp[1:], depth + 1, seen)
+                elif fp and rv.get('ak') == 'tuple' and str(fp[0]).isdigit() and int(fp[0]) < len(ops):
+                    out |= roots(body, ops[int(fp[0])], fp[1:], depth + 1, seen)
+                else:
+                    for o in ops:
+                        out |= roots(body, o, (), depth + 1, seen)
+            elif k in ('discr', 'len'):
+                out |= _roots_place(body, rv['pl'], (), depth + 1, seen)
+            else:
+                for o in rv_operands(rv):
+                    out |= roots(body, o, (), depth + 1, seen)
+    # partial writes `l.f = x` (a parameter struct patched before use)
+    for i, j, s in body.stmts():
+        d = s.get('d')
+        if d is not None and not isinstance(d, int) and pl_local(d) == l and 'rv' in s:
+            dfs = tuple(pl_fields(d))
+            if not fp or not dfs or dfs[0] == fp[0]:
+                rest = tuple(fp[len(dfs):]) if fp[:len(dfs)] == dfs else ()
+                rv = s['rv']
+                for o in rv_operands(rv):
+                    out |= roots(body, o, rest, depth + 1, seen)
+                for q in rv_places(rv):
+                    out |= _roots_place(body, q, rest, depth + 1, seen)
+    return out
